@@ -20,7 +20,7 @@ if sys.path[0] != REPO:
 
 
 # depth multiplier of the sampled parts of the thorough tier (the quick tier is not affected)
-DEEP = int(__import__("os").environ.get("VERIF_THOROUGH_SCALE", "8"))
+DEEP = int(__import__("os").environ.get("VERIF_THOROUGH_SCALE", "24"))
 
 
 class Viol(Exception):
